@@ -9,7 +9,7 @@
      after <fuel> <heap> <marked>       phases after marking from a given mark set (comma separated addrs)
      hist <nslots> <fuel> <ops>         ops := op (';' op)*, op := K,i | C,i,a,b | E,i,k,v | D,i | G | O,i | F,i | P,i,f | X,i
    answers:
-     OK <retained addrs> <weak objects: addr:weak:extra:broken;...> <close log>      | ERR fuel *)
+     OK <retained addrs> <weak objects: addr:weak:extra:broken;...> <close log> <ports/filenos: addr:Pon | addr:Fon:fd:count;...>  | ERR fuel *)
 open Model
 open Common
 
@@ -62,7 +62,16 @@ let answer = function
         | Some o when o.weakp ->
           Some (hex_of_addr a ^ ":" ^ string_of_refs o.weak ^ ":" ^ string_of_refs o.extra ^ ":" ^ (if o.brokenp then "1" else "0"))
         | _ -> None) h.order in
+    let b x = if x then "1" else "0" in
+    let kinds = List.filter_map (fun a ->
+        match PositiveMap.find a h.objs with
+        | Some o -> (match o.kind with
+            | KPlain -> None
+            | KPort (op, nc, _) -> Some (hex_of_addr a ^ ":P" ^ b op ^ b nc)
+            | KFileno (op, nc, fd, c) -> Some (hex_of_addr a ^ ":F" ^ b op ^ b nc ^ ":" ^ hex_of_z fd ^ ":" ^ hex_of_z c))
+        | None -> None) h.order in
     "OK " ^ (if retained = "" then "-" else retained) ^ " " ^ (if wk = [] then "-" else String.concat ";" wk) ^ " " ^ string_of_log log
+    ^ " " ^ (if kinds = [] then "-" else String.concat ";" kinds)
 
 (* ---- histories *)
 let op_of s =
